@@ -129,9 +129,9 @@ impl FieldElement for BaseElement {
 
     #[inline]
     fn double(self) -> Self {
-        let ret = (self.0 as u128) << 1;
-        let (result, over) = (ret as u64, (ret >> 64) as u64);
-        Self(result.wrapping_sub(M * over))
+        // the result must be fully reduced: a value in [M, 2^64) is not canonical and breaks
+        // equality and the subtraction that follows
+        self + self
     }
 
     #[inline]
